@@ -55,6 +55,10 @@ var fieldInventory = []fieldUse{
 	{"Type0: /DescendantFonts, CIDFont /DW /W (both forms), /CIDToGIDMap", "pdf-rich", "/W [1 [500 600] 10 12 700]"},
 	{"ToUnicode: codespacerange, bfchar count + entries", "pdf-cid", "beginbfchar"},
 	{"ToUnicode: bfrange count, range form and array form", "pdf-rich", "beginbfrange"},
+	{"CMap codespacerange low/high with 1-, 2- and 4-byte codes (hex operands = numeric sites)", "pdf-rich", "<FFFFFF00> <FFFFFFFE>"},
+	{"CMap bfchar src/dst: 1-, 2-, 4-byte source, multi-unit destination", "pdf-rich", "<FFFFFF01> <00660069>"},
+	{"CMap bfrange lo/hi/dst: 4-byte codes with a multi-unit (surrogate pair) destination, 1-byte range", "pdf-rich", "<FFFFFFF0> <FFFFFFF8> <D83DDE00>"},
+	{"CMap cidrange lo/hi/cid (tabula has no parser for it: carried so that one would be reached)", "pdf-rich", "begincidrange"},
 	// PDF: content
 	{"Tf size, Td/TD/Tm/cm operands, T*, ' and \"", "pdf-rich", " TD"},
 	{"Tz Tc Tw TL Ts Tr", "pdf-rich", "100 Tz 0.5 Tc 1 Tw 14 TL 2 Ts 0 Tr"},
@@ -103,9 +107,10 @@ func richPDFFile() pdfw.File {
 		"/CIDInit /ProcSet findresource begin", "12 dict begin", "begincmap",
 		"/CIDSystemInfo << /Registry (Adobe) /Ordering (UCS) /Supplement 0 >> def",
 		"/CMapName /Adobe-Identity-UCS def", "/CMapType 2 def",
-		"1 begincodespacerange", "<0000> <FFFF>", "endcodespacerange",
-		"1 beginbfchar", "<0001> <0041>", "endbfchar",
-		"2 beginbfrange", "<0002> <0004> <0042>", "<0010> <0011> [<0050> <0051>]", "endbfrange",
+		"3 begincodespacerange", "<00> <7F>", "<8000> <FFFF>", "<FFFFFF00> <FFFFFFFE>", "endcodespacerange",
+		"3 beginbfchar", "<0001> <0041>", "<21> <0021>", "<FFFFFF01> <00660069>", "endbfchar",
+		"4 beginbfrange", "<0002> <0004> <0042>", "<0010> <0011> [<0050> <0051>]", "<22> <24> <0022>", "<FFFFFFF0> <FFFFFFF8> <D83DDE00>", "endbfrange",
+		"1 begincidrange", "<8000> <80FF> 256", "endcidrange",
 		"endcmap", "CMapName currentdict /CMap defineresource pop", "end", "end", ""}, "\n")
 	content := strings.Join([]string{"q", "1 0 0 1 0 0 cm", "BT", "/F1 12 Tf", "100 Tz 0.5 Tc 1 Tw 14 TL 2 Ts 0 Tr", "72 700 Td", "(A) Tj", "T*", "(B) '",
 		"1 2 (C) \"", "[ (D) -120 (E) 30 ] TJ", "1 0 0 1 72 600 Tm", "/F2 10 Tf", "<00010002> Tj", "0 -14 TD", "<0010> Tj", "ET", "/Fm1 Do", "Q", ""}, "\n")
